@@ -226,7 +226,37 @@ def _solve(P, method, x0=None):
         return ("raise", type(ex).__name__)
 
 
+def _special_matrixparameter_matmul(case):
+    """recorded finding C12-matrixparameter-matmul: `MatrixParameter @ vector` (shown in docs/api/parameters.qmd) computes
+    with the values the parameter holds when the expression is BUILT; MatrixParameter.set is ignored afterwards"""
+    from optyx import MatrixParameter, VectorVariable
+    classes = ["special:matrixparameter-matmul"]
+    with quiet():
+        A = MatrixParameter("A", [[1.0, 1.0]])
+        x = VectorVariable("x", 2, lb=0)
+        try:
+            row = (A @ x)[0]
+            before = float(row.evaluate({"x[0]": 1.0, "x[1]": 1.0}))
+            A.set([[2.0, 4.0]])
+            after = float(row.evaluate({"x[0]": 1.0, "x[1]": 1.0}))
+        except Exception as ex:
+            # rejected / not evaluable: nothing stale is returned
+            classes.append("special:raises:" + exc_label(ex))
+            return Result.ok(True, classes)
+    if before != 2.0 or after != 6.0:
+        return Result.violation("stale-matrixparameter-matmul",
+                                f"A = MatrixParameter([[1, 1]]); row = (A @ x)[0]; row at x = (1, 1) is {before} (expected 2); after "
+                                f"A.set([[2, 4]]) it is {after} (a fresh model gives 6)", classes)
+    return Result.ok(True, classes)
+
+
+def _known_matrixparameter(case, res):
+    return case.get("special") == "matrixparameter-matmul" and res.label == "stale-matrixparameter-matmul"
+
+
 def check(case):
+    if case.get("special") == "matrixparameter-matmul":
+        return _special_matrixparameter_matmul(case)
     from harness.common import thresholds
     # lowthr: the deep-tree (iterative) builders run on these ordinary trees
     with thresholds(1 if case.get("config") == "lowthr" else None):
@@ -354,4 +384,4 @@ def _check(case):
     return Result.ok(nontrivial, sorted(set(classes)))
 
 
-KNOWN = {}
+KNOWN = {"C12-matrixparameter-matmul": _known_matrixparameter}
